@@ -204,7 +204,60 @@ def run(ctx):
     if cases:
         res.sample({"template": cases[0][1], "compiled": str(cases[0][2])[:400]})
         res.sample({"template": cases[-1][1], "expansion": cases[-1][2][0][:300]})
+    _handler_histories(ctx, res)
     return res
+
+
+def _handler_histories(ctx, res):
+    """pygopherd's TAL handler in one server process: the page and the templates it includes (through dir/ root/ rdir/) are
+    replaced between requests -- with a newer, the same and an older modification time.  Each answer is the expansion of the
+    files as they are at that request (what a server that has served nothing before answers)."""
+    import os
+    import pyg
+    import reqs
+    tree = pyg.Tree()
+    try:
+        cfg = pyg.make_config(tree.root, pyg.FULL_HANDLERS, **{"handlers.dir.DirHandler|cachetime": "0"})
+        page = ('<html><body><h1 tal:content="string:page %d">t</h1><p tal:replace="structure dir/footer">f</p>'
+                '<div metal:use-macro="dir/lib/macros/box"><b metal:fill-slot="body">filled %d</b></div>'
+                '<i tal:replace="structure rdir/shared">s</i></body></html>\n')
+        footer = '<address>footer version %d</address>\n'
+        macros = '<div metal:define-macro="box" class="box%d"><span metal:define-slot="body">empty</span></div>\n'
+        shared = '<em>shared %d</em>\n'
+        files = {"site/sub/page.html.tal": page, "site/sub/footer.html.tal": footer, "site/sub/lib.html.tal": macros, "site/shared.html.tal": shared}
+        steps = [(None, 1_700_000_000)] + [(f, t) for f in files for t in (1_700_000_500, 1_700_000_500, 1_600_000_000)]
+        version = {f: 0 for f in files}
+
+        def lay(upto):
+            for f in files:
+                version[f] = 0
+            for i, (f, t) in enumerate(steps[:upto + 1]):
+                for g in (files if f is None else [f]):
+                    version[g] = i + 1
+                    body = files[g]
+                    tree.write(g, (body % ((version[g],) * body.count("%d"))).encode())
+                    os.utime(tree.path(g), (t, t))
+
+        def ask():
+            return pyg.request(reqs.build("gopher", "/site/sub/page.html.tal"), cfg, reset=False).out
+        pyg.fresh_process_state()
+        history = []
+        for i in range(len(steps)):
+            lay(i)
+            history.append(ask())
+        for i in range(len(steps)):
+            lay(i)
+            pyg.fresh_process_state()
+            fresh = ask()
+            res.evaluations += 1
+            res.nontrivial.add(("tal-handler-history", i))
+            if history[i] != fresh or (b"version" not in (fresh or b"") and i == 0):
+                res.violation("C17:handler-history", "the TAL handler's answer is not the expansion of the templates as they are now (one server process)",
+                              {"step": i, "replaced": steps[i][0], "mtime": steps[i][1]}, observed=(history[i] or b"")[:400], required=(fresh or b"")[:400],
+                              replay={"handler_history": True, "step": i})
+    finally:
+        tree.close()
+        pyg.fresh_process_state()
 
 
 def _walk(ast):
@@ -227,6 +280,11 @@ def _nested_repeat(ast, inside=False):
 
 def replay(data):
     rp = data["violation"]["replay"]
+    if rp.get("handler_history"):
+        r = Result()
+        _handler_histories(None, r)
+        print(r.violations[:3])
+        return 0
     if rp.get("include"):
         print("templates:", rp["templates"])
         print("page:", rp["page"])
